@@ -18,7 +18,7 @@ RULE = (
     "corresponding vertices are equal as physical poses and the reports agree. Non-trivial = the change is not the identity and, for (e), some "
     "information matrix has a translation-rotation cross term >= 1e-2 of its diagonal."
 )
-BUDGET = {"quick": 16 * 200, "thorough": 16 * 6000}
+BUDGET = {"quick": 16 * 500, "thorough": 16 * 6000}
 TOLERANCES = {
     "chi2": "sum over edges of (1e-9*A + propagation of 1e-10*(1+S) error differences); (g): after dividing by c",
     "poses": "1e-8*(1+S)*max(1, cond(H_ff)*1e-4) translation, 1e-8*max(1,cond*1e-4) rotation (mod 2pi / up to sign)",
@@ -32,7 +32,7 @@ TRANSFORMS = ["perm-vertices", "perm-edges", "relabel", "shift-2pi", "negate-qua
 @S.composite
 def strategy_(g):
     tr = g.choice(TRANSFORMS)
-    kw = dict(n_pose=(2, 8), n_lm=(0, 3), n_loops=(0, 3), conds=(1.0, 1e2), noise=(0.05, 0.05), pert=(0.3, 0.3), features=("parallel", "reversed", "permute", "ids", "multifixed", "rn_lm_offsets"), allow_zero_noise=False)
+    kw = dict(n_pose=(2, 8), n_lm=(0, 3), n_loops=(0, 3), conds=(1.0, 1e2), noise=(0.05, 0.05), pert=(0.3, 0.3), features=("parallel", "reversed", "permute", "ids", "multifixed", "rn_lm_offsets", "quat-signs"), allow_zero_noise=False)
     if tr == "shift-2pi":
         kw["bases"] = ("se2",)
     if tr == "negate-quat":
@@ -158,18 +158,20 @@ def _identity_transform(case):
     return False
 
 
-def _report_ambiguous(ret, tol):
-    """True if any stopping comparison of the run is within rounding of its threshold or chi2 collapsed to noise."""
+def _report_ambiguous(ret, tol, rel_noise=1e-9, abs_noise=0.0):
+    """True if any stopping comparison of the run is within the noise of its threshold or chi2 collapsed to noise.
+    rel_noise / abs_noise: how much the chi2 values of the two runs being compared may legitimately differ."""
     chis = [ret.initial_chi2] + [it.chi2 for it in ret.iteration_results if it.chi2 is not None]
     if any(c is None or not np.isfinite(c) for c in chis):
         return True
     for a, b in zip(chis[:-1], chis[1:]):
         if a <= 1e-18 * (1 + chis[0]) or b <= 1e-18 * (1 + chis[0]):
             return True
+        noise = rel_noise * max(a, b) + abs_noise
         rel = (a - b) / (a + 2.0**-52)
-        if abs(rel - tol) <= 1e-6 * max(tol, 1e-12):
+        if abs(rel - tol) <= 1e-6 * max(tol, 1e-12) + 10.0 * noise / a:
             return True
-        if abs(a - b) <= 1e-9 * max(a, b):
+        if abs(a - b) <= 10.0 * noise:
             return True  # chi2 <= chi2_prev decided by rounding
     return False
 
@@ -274,7 +276,7 @@ def check(case, ctx):
     if not GC.all_finite(g1):
         ctx.event("discarded:nonfinite-default-run")
         return
-    amb = _report_ambiguous(ra, 1e-4) or _report_ambiguous(rb, 1e-4)
+    amb = _report_ambiguous(ra, 1e-4, 1e-9 * amp, tol_sum) or _report_ambiguous(rb, 1e-4, 1e-9 * amp, tol_sum * scale)
     if amb:
         ctx.event("ambiguous:stopping-threshold")
         return
